@@ -72,16 +72,6 @@ func findSwitch(body ast.Node, tag string) *ast.SwitchStmt {
 }
 
 // callName returns the method / function name of a call expression.
-func callName(c *ast.CallExpr) string {
-	switch f := c.Fun.(type) {
-	case *ast.Ident:
-		return f.Name
-	case *ast.SelectorExpr:
-		return f.Sel.Name
-	}
-	return ""
-}
-
 var lcSignificant = map[string]bool{
 	"locateTxByOutput": true, "locateTxByHash": true, "SendOutputs": true,
 	"UpdateAccount": true, "maybeBroadcastTx": true, "InitAccount": true,
